@@ -31,7 +31,14 @@ ALL_NODES = ["leaf:A", "leaf:B", "single", "top", "tsum", "outer", "byKey:0", "b
 FIXES = {"FixAbsent": "TRUE", "FixEqWrite": "TRUE", "FixTopLevel": "TRUE", "SharedKeys": "FALSE"}
 
 
-def cfg_text(nodes, vals, maxops, capacity, maxretain=1, emit="all", shadow=False):
+# shadow variant per configuration: which single repair is undone in the shadow design
+SHADOW_OF = {"dyn": "absent", "dyn6": "absent", "trk": "absent", "memo": "absent", "outer": "absent",
+             "eqw": "eqwrite", "eqw5": "eqwrite",
+             "gc1": "toplevel", "gc1v": "toplevel", "gc2": "toplevel", "gc2w": "toplevel", "gc3": "toplevel",
+             "twin": "shared", "twin5": "shared", "twin6": "shared"}
+
+
+def cfg_text(nodes, vals, maxops, capacity, maxretain=1, emit="all", shadow=None):
     nd = ", ".join(f'"{n}"' for n in nodes)
     vs = ", ".join(str(v) for v in vals)
     return f"""SPECIFICATION Spec
@@ -48,6 +55,10 @@ CONSTANTS
   MaxOps = {maxops}
   MaxRetain = {maxretain}
   Shadow = {"TRUE" if shadow else "FALSE"}
+  SFixAbsent = {"FALSE" if shadow == "absent" else "TRUE"}
+  SFixEqWrite = {"FALSE" if shadow == "eqwrite" else "TRUE"}
+  SFixTopLevel = {"FALSE" if shadow == "toplevel" else "TRUE"}
+  SShared = {"TRUE" if shadow == "shared" else "FALSE"}
   Emit = "{emit}"
 VIEW View
 INVARIANT HoldsC01 HoldsC02 HoldsC03
@@ -195,7 +206,7 @@ def run(chk: vlib.Check):
     for name in PLAN[(prop, tier)]:
         nodes, vals, maxops, capacity, maxretain = CONFIGS[name]
         cfg = chk.work / f"MC_{name}.cfg"
-        cfg.write_text(cfg_text(nodes, vals, maxops, capacity, maxretain, emit="all", shadow=True))
+        cfg.write_text(cfg_text(nodes, vals, maxops, capacity, maxretain, emit="all", shadow=SHADOW_OF.get(name)))
         # (no -coverage here: TLC's coverage bookkeeping runs out of memory on the recursive interpreter;
         #  non-vacuity is measured below from the operations that actually occur in the emitted transitions)
         r = vlib.tlc(SP / "MCPico.tla", cfg, workers=6, timeout=1500, heap="8g", seed=chk.seed)
